@@ -71,6 +71,7 @@ func stdDefs(p *profile) func(string) (Def, Def, Def) {
 }
 
 func newProfile(dialect string) *profile {
+	dialect = strings.TrimSuffix(dialect, "-history")
 	scoped := dialect == "postgres-ns"
 	if scoped {
 		dialect = "postgres"
@@ -78,7 +79,7 @@ func newProfile(dialect string) *profile {
 	p := &profile{dialect: dialect, scoped: scoped}
 	if strings.HasPrefix(dialect, "mysql") {
 		vn := strings.TrimPrefix(strings.TrimPrefix(dialect, "mysql"), "-")
-		if vn == "" || vn == "history" {
+		if vn == "" {
 			vn = "default"
 		}
 		v, ok := myVariants[vn]
